@@ -149,6 +149,11 @@ def sample(rng, n, nocase, dot_all, alphabet):
     if t in ("assert", "empty"):
         return b""
     if t == "class":
+        if rng.chance(1, 2):
+            # boundary members: first / last byte of every range the class is made of, and their neighbours
+            cands = [b for b in class_edges(n[1]) if cls_mem(n[1], b, nocase)]
+            if cands:
+                return bytes([rng.choice(cands)])
         for _ in range(12):
             b = rng.choice(alphabet) if rng.chance(3, 4) else rng.below(256)
             if cls_mem(n[1], b, nocase):
@@ -180,6 +185,30 @@ def widen(b):
     return b"".join(bytes([x, 0]) for x in b)
 
 
+PERL_EDGES = {"d": [0x30, 0x39], "w": [0x30, 0x39, 0x41, 0x5A, 0x5F, 0x61, 0x7A], "s": [0x09, 0x0D, 0x20]}
+
+
+def class_edges(c):
+    """edges of a class: first and last byte of each range / perl class, plus the bytes just outside"""
+    inner = []
+    if c[0] == "perl":
+        inner += PERL_EDGES[c[1]]
+    else:
+        for it in c[1]:
+            if it[0] == "perl":
+                inner += PERL_EDGES[it[1]]
+            elif it[0] == "lit":
+                inner.append(it[1])
+            else:
+                inner += [it[1], it[2]]
+    out = set()
+    for b in inner:
+        for x in (b - 1, b, b + 1):
+            if 0 <= x <= 255:
+                out.add(x)
+    return sorted(out)
+
+
 def node_bytes(n, acc):
     t = n[0]
     if t in ("alt", "cat"):
@@ -196,6 +225,10 @@ def node_bytes(n, acc):
             elif it[0] == "range":
                 acc.add(it[1])
                 acc.add(it[2])
+            elif it[0] == "perl" and not it[2]:
+                acc.update(PERL_EDGES[it[1]][-2:])
+    elif t == "class" and n[1][0] == "perl" and not n[1][2]:
+        acc.update(PERL_EDGES[n[1][1]][-2:])
     return acc
 
 
@@ -662,8 +695,8 @@ class C03(Prop):
                     return (False, False, 0)
         ins = glist([gbytes(bytes.fromhex(h)) for h in case["inputs"]])
         kr, kf = _hir.half_codes(out["desc"][0]["kind"])
-        return "let d := %s in with_kinds (kinds_ok d %d %d) (C03_case %s %s %s d %s %s %s)" % (
-            _hir.g_sdesc(out["desc"][0]), kr, kf, g_node(case["node"]), gbool(case["ci"]), gbool(case["da"]),
+        return "let d := %s in with_kinds (kinds_ok d %d %d && classes_ok %s) (C03_case %s %s %s d %s %s %s)" % (
+            _hir.g_sdesc(out["desc"][0]), kr, kf, _hir.g_classes(out["desc"][0]["hir"]), g_node(case["node"]), gbool(case["ci"]), gbool(case["da"]),
             ins, glist(outs), subjects)
 
     def nontrivial(self, case, out):
